@@ -1,7 +1,7 @@
 (* Property C08 - only statements, each closed by [exact]. *)
 From Coq Require Import NArith List Bool Sorting.Sorted Permutation.
 Import ListNotations.
-Require Import UV.C08.Model UV.C08.Proofs UV.C08.Figures UV.C08.Open UV.C08.Order UV.C08.Checker UV.C08.OpenSpec.
+Require Import UV.C08.Model UV.C08.Proofs UV.C08.Figures UV.C08.Open UV.C08.Order UV.C08.Checker UV.C08.OpenSpec UV.C08.SortChecker.
 Local Open Scope N_scope.
 
 (* The accumulation automaton of fstack_account_time + report_update_node (uint64 arithmetic, clamp
@@ -109,6 +109,13 @@ Theorem C08_sorted : forall ks tbl, names_sorted tbl ->
   StronglySorted (before ks) (sort_nodes ks tbl) /\ Permutation tbl (sort_nodes ks tbl).
 Proof. exact sort_nodes_sorted. Qed.
 Print Assumptions C08_sorted.
+
+(* ... and the run-time checker for the row order (descending under the keys, ties in name order, same set of
+   rows) accepts the model's order, for every key list and every report. *)
+Theorem C08_sort_checker_accepts_model : forall ks c,
+  ok_sorted ks (report c) (map n_name (sort_nodes ks (report c))) = true.
+Proof. exact (fun ks c => sort_checker_accepts_model ks (report c) (report_names_sorted c)). Qed.
+Print Assumptions C08_sort_checker_accepts_model.
 
 (* --diff of a table against itself pairs every row with itself and all differences are zero. *)
 Theorem C08_self_diff_zero : forall c,
